@@ -9,6 +9,7 @@
 #include <cstring>
 #include <cstdlib>
 #include <cmath>
+#include <type_traits>
 #include <gmp.h>
 #include "gmp++/gmp++.h"
 #include "givinteger.h"
@@ -40,6 +41,7 @@ static int sgn(long long x) { return (x > 0) - (x < 0); }
 #include "c01_part1.inc"
 #include "c01_part2.inc"
 #include "c01_part3.inc"
+#include "c01_part4.inc"
 
 int main() {
     std::string line;
@@ -49,7 +51,7 @@ int main() {
         if (tok.empty()) continue;
         o.str(""); o.clear();
         const std::string& v = tok[0];
-        bool ok = part1(v) || part2(v) || part3(v);
+        bool ok = part1(v) || part2(v) || part3(v) || part4(v);
         if (!ok) o << "UNKNOWN-VARIANT";
         std::cout << o.str() << "\n";
     }
